@@ -8,10 +8,16 @@
  *        parsec_mca_cmd_line_process_args, copy of the context environment into environ) called directly
  *   mca_eval init <cases.txt> <out.ndjson> [--mca name value]...
  *        MPI_Init + parsec_init(1, &argc, &argv) with the --mca options
- * cases.txt:  <id> <type:int|sizet|string> <default> <synonym:0|1> <override or ->     (values without blanks)
+ * cases.txt:  <id> <type:int|sizet|string> <default> <synonym:0|1> <override or -> [<rereg:0|1>]  (values without blanks)
  *        parameter name verif_c<id>, synonym verif_s<id>
+ *             P <id> <type> <default A> <default B>
+ *        a pair of parameters whose names are in prefix relation: A = verif_q<id>, B = verif_q<id>_x
  * out: {"e":"case","id":N,"val":"..","src":"default|env|file|override","val0":"..","src0":".."}
  *        val0/src0 = before the override is applied (parsec_mca_param_set_*), val/src = final
+ *        rereg = 1: the parameter is registered a second time (same arguments) after val0/src0 were read:
+ *        "curr" = current value returned by that registration, "valr"/"srcr" = lookup after it; and a third time after
+ *        the override: "val2"/"src2"
+ *      {"e":"pair","id":N,"res":{"A":{"val":"..","src":".."},"B":{"val":"..","src":".."}}}
  */
 #include "parsec/parsec_config.h"
 #include "parsec/runtime.h"
@@ -64,6 +70,22 @@ static void lookup(int idx, const char *type, char *buf, size_t cap, const char 
     *src = src_name(s);
 }
 
+/* register (or re-register) parameter verif_<pname>; the current value returned by the registration goes to cur */
+static int reg(const char *type, const char *pname, const char *dflt, char *curbuf, size_t cap)
+{
+    int idx;
+    curbuf[0] = '\0';
+    if( !strcmp(type, "int") ) { int cur = -1; idx = parsec_mca_param_reg_int_name("verif", pname, "verification parameter", false, false, atoi(dflt), &cur); snprintf(curbuf, cap, "%d", cur); }
+    else if( !strcmp(type, "sizet") ) { size_t cur = 0; idx = parsec_mca_param_reg_sizet_name("verif", pname, "verification parameter", false, false, (size_t)strtoull(dflt, NULL, 10), &cur); snprintf(curbuf, cap, "%zu", cur); }
+    else {
+        char *cur = NULL;    /* like the runtime's own registrations: ask for the current value */
+        idx = parsec_mca_param_reg_string_name("verif", pname, "verification parameter", false, false, dflt, &cur);
+        snprintf(curbuf, cap, "%s", NULL == cur ? "(null)" : cur);
+        if( cur ) free(cur);
+    }
+    return idx;
+}
+
 int main(int argc, char **argv)
 {
     FILE *in, *out;
@@ -103,29 +125,49 @@ int main(int argc, char **argv)
     in = fopen(argv[2], "r"); out = fopen(argv[3], "w");
     if( !in || !out ) return 3;
     while( fgets(line, sizeof(line), in) ) {
-        int id, syn, idx = -1;
-        char type[16], dflt[256], ovr[256], pname[64], sname[64], v0[512], v1[512];
-        const char *s0, *s1;
-        if( sscanf(line, "%d %15s %255s %d %255s", &id, type, dflt, &syn, ovr) != 5 ) continue;
+        int id, syn, idx = -1, idx2, rereg = 0;
+        char type[16], dflt[256], ovr[256], pname[64], sname[64], v0[512], v1[512], vr[512], v2[512], cur[512], cur2[512];
+        const char *s0, *s1, *sr = "unknown", *s2 = "unknown";
+        if( 'P' == line[0] ) {   /* a pair of parameters with names in prefix relation */
+            char dfltb[256], bname[80]; int ia, ib;
+            if( sscanf(line, "P %d %15s %255s %255s", &id, type, dflt, dfltb) != 4 ) continue;
+            snprintf(pname, sizeof(pname), "q%d", id);
+            snprintf(bname, sizeof(bname), "q%d_x", id);
+            ia = reg(type, pname, dflt, cur, sizeof(cur));
+            ib = reg(type, bname, dfltb, cur2, sizeof(cur2));
+            if( ia < 0 || ib < 0 ) { fprintf(out, "{\"e\":\"pair\",\"id\":%d,\"res\":{\"A\":{\"val\":\"REGISTER-ERROR\",\"src\":\"unknown\"},\"B\":{\"val\":\"REGISTER-ERROR\",\"src\":\"unknown\"}}}\n", id); continue; }
+            lookup(ia, type, v0, sizeof(v0), &s0);
+            lookup(ib, type, v1, sizeof(v1), &s1);
+            fprintf(out, "{\"e\":\"pair\",\"id\":%d,\"res\":{\"A\":{\"val\":\"%s\",\"src\":\"%s\"},\"B\":{\"val\":\"%s\",\"src\":\"%s\"}}}\n", id, v0, s0, v1, s1);
+            continue;
+        }
+        if( sscanf(line, "%d %15s %255s %d %255s %d", &id, type, dflt, &syn, ovr, &rereg) < 5 ) continue;
         snprintf(pname, sizeof(pname), "c%d", id);
         snprintf(sname, sizeof(sname), "s%d", id);
-        if( !strcmp(type, "int") ) { int cur; idx = parsec_mca_param_reg_int_name("verif", pname, "verification parameter", false, false, atoi(dflt), &cur); }
-        else if( !strcmp(type, "sizet") ) { size_t cur; idx = parsec_mca_param_reg_sizet_name("verif", pname, "verification parameter", false, false, (size_t)strtoull(dflt, NULL, 10), &cur); }
-        else {
-            char *cur = NULL;    /* like the runtime's own registrations: ask for the current value */
-            idx = parsec_mca_param_reg_string_name("verif", pname, "verification parameter", false, false, dflt, &cur);
-            if( cur ) free(cur);
-        }
+        idx = reg(type, pname, dflt, cur, sizeof(cur));
         if( idx < 0 ) { fprintf(out, "{\"e\":\"case\",\"id\":%d,\"val\":\"REGISTER-ERROR\",\"src\":\"unknown\",\"val0\":\"\",\"src0\":\"unknown\"}\n", id); continue; }
         if( syn ) parsec_mca_param_reg_syn_name(idx, "verif", sname, false);
         lookup(idx, type, v0, sizeof(v0), &s0);
+        vr[0] = v2[0] = cur2[0] = '\0';
+        if( rereg ) {           /* second registration under the same name: same index, same effective value */
+            idx2 = reg(type, pname, dflt, cur2, sizeof(cur2));
+            if( idx2 != idx ) snprintf(cur2, sizeof(cur2), "REREGISTER-ERROR");
+            lookup(idx, type, vr, sizeof(vr), &sr);
+        }
         if( strcmp(ovr, "-") ) {
             if( !strcmp(type, "int") ) parsec_mca_param_set_int(idx, atoi(ovr));
             else if( !strcmp(type, "sizet") ) parsec_mca_param_set_sizet(idx, (size_t)strtoull(ovr, NULL, 10));
             else parsec_mca_param_set_string(idx, ovr);
         }
         lookup(idx, type, v1, sizeof(v1), &s1);
-        fprintf(out, "{\"e\":\"case\",\"id\":%d,\"val\":\"%s\",\"src\":\"%s\",\"val0\":\"%s\",\"src0\":\"%s\"}\n", id, v1, s1, v0, s0);
+        if( rereg ) {
+            idx2 = reg(type, pname, dflt, cur, sizeof(cur));
+            lookup(idx, type, v2, sizeof(v2), &s2);
+            if( idx2 != idx ) snprintf(v2, sizeof(v2), "REREGISTER-ERROR");
+        }
+        fprintf(out, "{\"e\":\"case\",\"id\":%d,\"val\":\"%s\",\"src\":\"%s\",\"val0\":\"%s\",\"src0\":\"%s\"", id, v1, s1, v0, s0);
+        if( rereg ) fprintf(out, ",\"curr\":\"%s\",\"valr\":\"%s\",\"srcr\":\"%s\",\"val2\":\"%s\",\"src2\":\"%s\"", cur2, vr, sr, v2, s2);
+        fprintf(out, "}\n");
     }
     fclose(out);
     if( use_init ) { parsec_fini(&ctx); MPI_Finalize(); }
